@@ -308,11 +308,20 @@ func (w *world) facts(b *blockchain.Block, injectInit bool) string {
 		corr.Hex(h.PreviousBlockID), corr.Hex(h.GeneratorAddress), corr.Hex(h.ID),
 		fmt.Sprint(h.MaxHeightPrevoted), fmt.Sprint(h.MaxHeightGenerated), b01(h.ImpliesMaxPrevotes),
 		fmt.Sprint(ac.Height), fmt.Sprint(len(ac.AggregationBits)), fmt.Sprint(len(ac.CertificateSignature)), b01(acSigValid(n, ac)),
-		fmt.Sprint(len(h.Signature)), b01(sigOK),
+		sigLenToken(h), b01(sigOK),
 		txStatic, b01(bytes.Equal(h.TransactionRoot, refMerkleRoot(ids))),
 		fmt.Sprint(refAssets(b.Assets)), b01(bytes.Equal(h.AssetRoot, refMerkleRoot(encAssets))), fmt.Sprint(size),
 		hooks, txs, change,
 		b01(expVH != nil && bytes.Equal(h.ValidatorsHash, expVH)), fmt.Sprint(len(events)), b01(bytes.Equal(h.EventRoot, er)), b01(commitOK),
 	}
 	return strings.Join(tok, " ")
+}
+
+// sigLenToken renders the signature length and, when it is not 32, the stateRoot length
+// (`<sig>/<stateRoot>`): BlockHeader.Validate requires a 32-byte stateRoot since fix 4d58fae.
+func sigLenToken(h *blockchain.BlockHeader) string {
+	if len(h.StateRoot) == 32 {
+		return fmt.Sprint(len(h.Signature))
+	}
+	return fmt.Sprintf("%d/%d", len(h.Signature), len(h.StateRoot))
 }
